@@ -43,6 +43,8 @@ func anyProgram(rt *rapid.T, s *vh.Session) (runCase, *gen.Builder) {
 		UseUnderlying: rapid.IntRange(0, 3).Draw(rt, "underlying") == 0,
 		Format:        format,
 		PkgNames:      rapid.Bool().Draw(rt, "pkgnames"),
+		LocalNamePkgs: !s.Open("F-ALIAS-COLLISION"),
+		TargetsInConv: rapid.IntRange(0, 5).Draw(rt, "targets-in-conv") == 0,
 		MaxFields:     4,
 	}
 	// one program in eight concentrates on zero-value guards over structs that hold
@@ -584,6 +586,14 @@ func c01Features(c runCase, msg string) []string {
 				if m.Update && m.Source.K == spec.KPtr && fc != nil && fc.Source == "." {
 					fs = append(fs, "update-ptrsrc-whole")
 				}
+			}
+		}
+	}
+	for _, pk := range c.Conv.Prog.Pkgs {
+		switch pk.Name {
+		case "source", "c", "i", "key", "value", "target", "context", "err":
+			if strings.Contains(msg, "does not compile") || strings.Contains(msg, "shadows an import") {
+				fs = append(fs, "pkg-named-like-local")
 			}
 		}
 	}
